@@ -7,7 +7,11 @@ from ..objinterp import Obj
 from ..report import AnalysisError
 from .c14 import mk
 
+LOOKALIKES = [({"fg": 31, "bold": 0}, {"fg": 31, "bold": False}), ({"bold": 1}, {"bold": True}), ({"fg": 31}, {"fg": 31.0}),
+              ({"underline": 0, "bg": 44}, {"underline": False, "bg": 44})]
+
 GROUPS = {
+    "V4-a-value-does-not-depend-on-other-values": "terminal strings of look-alike values rendered one after the other in the same process",
     "V1-earlier-values-unchanged": "observations of every earlier value after each step of the programs",
     "V2-memoised-views-equal-fresh-ones": "memoised text / length / width / terminal string vs freshly computed ones",
     "V3-formatting-not-editable-in-place": "item assignment and attribute mutation on runs",
@@ -177,6 +181,27 @@ def run(src, rep, counts):
         if res[0] == "error":
             raise AnalysisError(res[1])
         bad.setdefault(res[0], []).append(res[1:])
+    # what a value displays does not depend on which other values were displayed before it in the same process (a cache shared
+    # between values must not confuse two values that merely compare equal: 0 == False, 1 == True, 31 == 31.0)
+    def alone(a):
+        i2 = new_interp(src)
+        return observe(i2, mk(i2, ("ok", a)))
+    for a, b in LOOKALIKES:
+        want = {0: alone(a), 1: alone(b)}
+        for order in ((0, 1), (1, 0)):
+            i3 = new_interp(src)
+            pair = (a, b)
+            got = {}
+            for k in order:
+                got[k] = observe(i3, mk(i3, ("ok", pair[k])))
+            rep.case(True)
+            for k in order:
+                if got[k] != want[k]:
+                    diff = [w for (w, x), (_, y) in zip(got[k], want[k]) if x != y]
+                    bad.setdefault("V4-a-value-does-not-depend-on-other-values", []).append(
+                        ("'ok' with %s displayed %s 'ok' with %s" % (pair[k], "after" if order[1] == k else "before", pair[1 - k]),
+                         "its %s is %s; displayed alone in a fresh process it is %s" % (diff[0], dict(got[k])[diff[0]], dict(want[k])[diff[0]])))
+                    break
     # formatting cannot be edited in place
     def fresh():
         v = mk(it, ("ab", {"fg": 31}), ("cd", {"bold": True}))
